@@ -88,6 +88,9 @@ func (r *Run) trace(f string, a ...interface{}) {
 	}
 }
 
+// Mode is the expectation the run ends with: release | rolledback | deleted | disabled | bg-superseded.
+func (r *Run) Mode() string { return r.mode }
+
 // Rollout returns the current Rollout (nil if gone).
 func (r *Run) Rollout() *v1beta1.Rollout { return r.W.GetRollout(r.S.NS, r.S.RolloutName()) }
 
@@ -377,6 +380,9 @@ func (r *Run) doUser(a string) {
 		err = s.SetTemplate(w, "v3")
 		if s.Style != "bluegreen" {
 			r.target = "v3"
+		} else if r.mode == "release" {
+			// a blue-green release refuses supersession and waits for the user to roll back
+			r.mode = "bg-superseded"
 		}
 	case "delete":
 		ro := &v1beta1.Rollout{}
@@ -419,6 +425,13 @@ func (r *Run) terminalNow() bool {
 		return ro == nil
 	case "disabled":
 		return ro != nil && ro.Status.Phase == v1beta1.RolloutPhaseDisabled
+	case "bg-superseded":
+		if ro == nil {
+			return false
+		}
+		if strings.Contains(ro.Status.Message, "please rollback first") {
+			return true
+		}
 	}
 	if ro == nil || ro.Status.Phase != v1beta1.RolloutPhaseHealthy {
 		return false
@@ -462,8 +475,26 @@ func (r *Run) Execute() {
 	r.userQueue = r.userQueue[:0]
 	r.UserActions = append(r.UserActions, "release:v2")
 	startActions := r.Actions
+	refusedAt := -1
 	for r.Actions-startActions < r.Budget {
+		if r.mode == "bg-superseded" && r.terminalNow() {
+			// refused supersession: the BatchRelease keeps retrying with errors (rate limited in production), so the
+			// cluster never goes quiet; watch a little longer and stop
+			if refusedAt < 0 {
+				refusedAt = r.Actions
+			}
+			if r.Actions-refusedAt > 150 {
+				r.Terminal, r.Quiescent = true, false
+				r.StopReason = "blue-green supersession refused"
+				return
+			}
+		}
 		if !r.step() {
+			if r.pausedSeenAt >= 0 && len(r.userQueue) == 0 && r.mode == "release" {
+				// the cluster is quiet and waits for the user's approval: grant it now
+				r.userQueue = append(r.userQueue, "approve")
+				continue
+			}
 			if r.terminalNow() && len(r.userQueue) == 0 {
 				r.Terminal, r.Quiescent = true, true
 				r.StopReason = "terminal+quiescent"
